@@ -240,7 +240,13 @@ func solvePath(ps *PathScript, workDir string, perQueryMs int, onlySolver string
 		defer func() {
 			for _, sv := range solvers[2:] { // z3 4.8.12 and cvc5: different code bases from the deciding z3 5.1
 				file := base + ".cross." + sv.Name + ".smt2"
-				if err := os.WriteFile(file, []byte(sv.Pre+ps.Script), 0o644); err != nil {
+				cscript := ps.Script
+				for _, o := range ps.Obls {
+					if !o.Trivial && expectedToFail(o) {
+						cscript = dropObligation(cscript, o.Seq) // recorded findings are not cross-checked
+					}
+				}
+				if err := os.WriteFile(file, []byte(sv.Pre+cscript), 0o644); err != nil {
 					continue
 				}
 				res, secs, _ := runScript(sv, file, 5000, nobl)
